@@ -53,7 +53,7 @@ def run(ctx):
             f = S["futures"][0]
             f["under_info"] = dict(f["info"])
             f["info"] = dict(f["info"], tick_size=f["info"]["tick_size"] * 5)
-        cfgk = trading.gen_config(rnd, S, {"otp": True, "pre_open_orders": k % 4 == 3})      # every fourth run: orders sent before the open from an event handler
+        cfgk = trading.gen_config(rnd, S, {"otp": True, "pre_open_orders": k % 4 == 3, "no_signal": k % 4 == 3})      # every fourth run: orders sent before the open from an event handler
         if S["futures"] and k % 3 == 1 and "future" in cfgk["accounts"]:
             cfgk["sim"].update(slippage_model="TickSizeSlippage", slippage=rnd.choice([1.0, 2.0]), signal=False)
         return S, cfgk
